@@ -136,3 +136,20 @@ pub proof fn lemma_aspecs_shift(v: RView, w: RView, p: int)
         lemma_aspecs_shift(v, w, p + aspec_size(w, p));
     }
 }
+
+// ---- runs of null entries (abbreviation code 0), as skipped by the depth-first cursor
+/// offset just past k consecutive null entries starting at the read position
+pub open spec fn null_run_end(v: RView, k: nat) -> int
+    decreases k
+{
+    if k == 0 { 0 } else { null_run_end(v, (k - 1) as nat) + v.leb_len(null_run_end(v, (k - 1) as nat)) }
+}
+/// the first k entries at the read position are all null entries lying inside the window
+pub open spec fn null_run_ok(v: RView, k: nat) -> bool
+    decreases k
+{
+    if k == 0 { true } else {
+        let q = null_run_end(v, (k - 1) as nat);
+        null_run_ok(v, (k - 1) as nat) && 0 <= q && v.leb_ok(q) && v.uleb(q) == 0
+    }
+}
